@@ -649,6 +649,65 @@ func c16Connections(c *Ctx) {
 				}
 			}
 		}
+		// the comparison in a helper of the connection (`conn.hasAddrs(laddr, raddr)`): wherever the helper can yield true,
+		// both comparisons held, local against its first and remote against its second address argument
+		if !(l && rr) {
+			for _, dc := range DomConds(r) {
+				hc, isC := dc.V.(*ssa.Call)
+				if !isC || !dc.Pol || len(hc.Call.Args) != 3 {
+					continue
+				}
+				hf := hc.Call.StaticCallee()
+				if hf == nil || !InRepo(hf) || hf.Blocks == nil || !rangeElemOfField(hc.Call.Args[0], "conns") || hc.Call.Args[1] != ssa.Value(get.Params[1]) || hc.Call.Args[2] != ssa.Value(get.Params[2]) {
+					continue
+				}
+				all := len(Returns(hf)) > 0
+				for _, hr := range Returns(hf) {
+					for _, lf := range phiLeaves(RetVals(hr)[0]) {
+						if k, isK := lf.v.(*ssa.Const); isK && k.Value != nil && k.Value.String() == "false" {
+							continue
+						}
+						conds := condsOnLeaf(lf, hr)
+						if _, isK := lf.v.(*ssa.Const); !isK {
+							conds = append(conds, Cond{V: lf.v, Pol: true})
+						}
+						hl, hr2 := false, false
+						for _, d2 := range conds {
+							x, y, ok := eqCond(d2)
+							if !ok {
+								continue
+							}
+							str := func(v ssa.Value) (ssa.Value, bool) {
+								call, ok := v.(*ssa.Call)
+								if !ok || !call.Call.IsInvoke() || call.Call.Method.Name() != "String" {
+									return nil, false
+								}
+								return call.Call.Value, true
+							}
+							ax, ok1 := str(x)
+							ay, ok2 := str(y)
+							if !ok1 || !ok2 {
+								continue
+							}
+							for _, pr := range [][2]ssa.Value{{ax, ay}, {ay, ax}} {
+								if base, ok := isFieldLoadNamed(pr[0], "Laddr"); ok && base == ssa.Value(hf.Params[0]) && pr[1] == ssa.Value(hf.Params[1]) {
+									hl = true
+								}
+								if base, ok := isFieldLoadNamed(pr[0], "Raddr"); ok && base == ssa.Value(hf.Params[0]) && pr[1] == ssa.Value(hf.Params[2]) {
+									hr2 = true
+								}
+							}
+						}
+						if !hl || !hr2 {
+							all = false
+						}
+					}
+				}
+				if all {
+					l, rr = true, true
+				}
+			}
+		}
 		c.Check(l && rr, "connections-get", key+" match", p.InstrPos(r), "local and remote address compared separately", "a connection is returned without its local address matching the requested local address AND its remote address matching the requested remote address as two separate comparisons (a combined/concatenated key lets different address pairs collide): "+fmt.Sprint(RenderConds(DomConds(r))))
 		c.Check(rangeElemOfField(rv, "conns"), "connections-get", key+" element", p.InstrPos(r), "", "Get returns something that is not the compared element of the connection list")
 	}
